@@ -166,6 +166,33 @@ Equality of the per-module output between two different compilations is not comp
     // C12.scope (= C09.scope): a named number in a constraint is looked up in the governing type (and the chain of type
     // references behind it) — a lookup that reaches past it searches the definitions of *every* module compiled alongside
     super::c09::scope(m, ctx, "C12.scope");
+    // an associated import is attributed to the module that *defines* the type (associated_import_type builds it that way);
+    // nothing in the validator re-attributes an import afterwards
+    {
+        let mut n = 0;
+        for f in m.fns.iter().filter(|f| f.krate == "rasn-compiler" && f.module.starts_with("validator")) {
+            struct A { out: Vec<(String, usize)> }
+            impl model::DeepCb for A {
+                fn expr(&mut self, e: &syn::Expr) {
+                    if let syn::Expr::Assign(a) = e {
+                        let l = tok(&a.left);
+                        if l.ends_with(".global_module_reference") || l.ends_with(".module_reference") {
+                            self.out.push((l, model::line_of(syn::spanned::Spanned::span(a))));
+                        }
+                    }
+                }
+            }
+            let mut a = A { out: vec![] };
+            model::deep_walk_block(&f.block, &mut a);
+            for (l, line) in a.out {
+                n += 1;
+                ctx.violate("C12.assoc", &format!("import-reattributed:{}", f.name), &f.file, line,
+                    &format!("{} assigns `{}`: an import added for the governing type of an imported value names the module that defines the type; re-attributing it to the clause the value came through yields `use super::<other module>::Type`, which does not exist there", f.name, l));
+            }
+        }
+        ctx.oblige("C12.assoc", "import-attribution-written-once", true);
+        let _ = n;
+    }
     // C12.imports:parser — "each IMPORTS clause becomes a use declaration" presupposes that the clause is read whatever its
     // layout: the token-boundary analysis of C13 is run and its reports for the module-header parsers are taken over
     {
